@@ -988,11 +988,27 @@ def value_edges(f, callee, const, rels=("==",)):
     return out
 
 
-def derived_vars(fn, seeds):
+def derived_vars(fn, seeds, prog=None):
     """locals whose value is computed from the seed locals: initialised from an expression that mentions one, assigned one, or
-    filled from one by memcpy/memmove/std::copy (destination's root variable).  Name-based within one function."""
+    filled from one by memcpy/memmove/std::copy (destination's root variable); with prog, also initialised from a call that is
+    handed a lambda whose body mentions one (std::any_of(..., [&]{ ... seed ... })).  Name-based within one function."""
     out = set(seeds)
     changed = True
+
+    def lambda_mentions(d):
+        if prog is None:
+            return False
+        blk = fn.blocks[d.block]
+        for c in blk.elems[:d.idx]:
+            if c["k"] == "call":
+                for a in c.get("args", []):
+                    if a.get("lam"):
+                        for lf in prog.lambda_by_id(a["lam"].split("#in:")[0], fn):
+                            for e in lf.events():
+                                if any(r[2:] in out for r in (e.get("refs") or []) if r.startswith("v:")) or \
+                                        any((x.get("v") in out) for x in [e.get("lhs") or {}, e.get("rhs") or {}]):
+                                    return True
+        return False
 
     def mentions(text):
         return any(re.search(r"\b%s\b" % re.escape(v), text or "") for v in out)
@@ -1001,7 +1017,7 @@ def derived_vars(fn, seeds):
         for d in fn.events("decl"):
             if d.get("var") and d["var"] not in out:
                 txt = ((d.get("init") or {}).get("t") or "") + " " + " ".join(a.get("t") or "" for a in d.get("cargs", []) or [])
-                if mentions(txt) or any(r[2:] in out for r in (d.get("refs") or []) if r.startswith("v:")):
+                if mentions(txt) or any(r[2:] in out for r in (d.get("refs") or []) if r.startswith("v:")) or lambda_mentions(d):
                     out.add(d["var"])
                     changed = True
         for a in fn.events("assign"):
@@ -1122,3 +1138,25 @@ def relation_edges(f, lhs_pred, rhs_pred, rels):
                 if match(c.get("lhs") or {}, rel, c.get("rhs") or {}):
                     out.append((b.id, k))
     return out
+
+
+def param_fed_by(prog, f, pname, site_pred, depth=3):
+    """f's parameter `pname` receives, at every call site of f, an argument for which site_pred(caller, arg) holds -- or the caller's
+    own parameter for which the same holds one level up."""
+    if f.is_lambda or depth <= 0:
+        return False
+    idx = [i for i, p_ in enumerate(f.params) if p_["name"] == pname]
+    sites = prog.call_sites(f.base)
+    if not idx or not sites:
+        return False
+    for s in sites:
+        if len(s.get("args", [])) <= idx[0]:
+            return False
+        a = s["args"][idx[0]]
+        if site_pred(s.func, a):
+            continue
+        caller = s.func
+        if a.get("v") in {p_["name"] for p_ in caller.params} and param_fed_by(prog, caller, a["v"], site_pred, depth - 1):
+            continue
+        return False
+    return True
